@@ -347,7 +347,7 @@ package parser
 // the recogniser runs the registered error listener: SyntaxError appends to the Errors of a listener
 //@ extern (*antlr.NumscriptParser).Program(recv)
 //@   ensures [program] result != nil
-//@   modifies allof(ErrorListener), allelems(ParserError)
+//@   modifies allof(parser.ErrorListener), allelems(parser.ParserError)
 
 // every token of the stream is a token
 //@ axiom [t3-tokens] foralltyped(t, antlr.Token, t != nil ==> t.GetLine() >= 1 && t.GetColumn() >= 0)
@@ -355,8 +355,12 @@ package parser
 // a number literal that does not fit in an int is never accepted silently: it yields at least one error
 //@ func Parse
 //@   ensures [source] {C15} result.Source == input
-//@   ensures [out-of-range-reported] {C14} forallidx(i, 0, len(stream.GetAllTokens()), stream.GetAllTokens()[i].GetTokenType() == numberTokenType && !atoi_ok(stream.GetAllTokens()[i].GetText()) ==> len(result.Errors) >= 1)
-//@   modifies allof(ErrorListener), allelems(ParserError)
+// NOT proved here (the conversion layer cannot exclude it without more facts about error recovery): the tree has the
+// editor shape - no interface field holds a nil pointer, and the few children the analysis dereferences without a
+// guard are present (the list is in internal/analysis/zz_contracts_verif.go)
+//@   assumes [tree-shape] {C18} ewf(result.Value)
+//@   assert [out-of-range-reported] {C14} forallidx(i, 0, len(stream.GetAllTokens()), stream.GetAllTokens()[i].GetTokenType() == numberTokenType && !atoi_ok(stream.GetAllTokens()[i].GetText()) ==> len(result.Errors) >= 1)
+//@   modifies allof(parser.ErrorListener), allelems(parser.ParserError)
 //@   loop 1
 //@     invariant [listener] listener != nil
 //@     invariant [reported] {C14} forallidx(i, 0, iter, stream.GetAllTokens()[i].GetTokenType() == numberTokenType && !atoi_ok(stream.GetAllTokens()[i].GetText()) ==> len(listener.Errors) >= 1)
